@@ -81,6 +81,7 @@ pub struct XStats {
     pub simple_ge3_points: u32,
     pub composites: u32,
     pub empty: u32,
+    pub overlap_bitmaps: u32,
 }
 
 impl XStats {
@@ -311,8 +312,24 @@ pub fn transform_glyf(
             bbox.i16(b.0).i16(b.1).i16(b.2).i16(b.3);
         }
     }
+    // optionFlags bit 0 (2022 Recommendation): an overlapSimpleBitmap of (numGlyphs + 7) >> 3 bytes follows
+    // the instruction stream; its bits only carry the OVERLAP_SIMPLE flag of simple glyphs, which is not one
+    // of the glyph attributes compared, so the expected glyphs are unchanged whatever the bits say.
+    // (Drawn after all other choices so that enabling it does not disturb them.)
+    let overlap_bitmap: Option<Vec<u8>> = if ch.next() % 5 == 0 {
+        let mut bm = vec![0u8; (n + 7) >> 3];
+        for (gi, g) in glyphs.iter().enumerate() {
+            if matches!(g, Glyph::Simple(_)) && ch.next() & 1 == 1 {
+                bm[gi / 8] |= 0x80 >> (gi % 8);
+            }
+        }
+        st.overlap_bitmaps += 1;
+        Some(bm)
+    } else {
+        None
+    };
     let mut out = Buf::new();
-    out.u32(0); // version (reserved + optionFlags = 0)
+    out.u16(0).u16(if overlap_bitmap.is_some() { 1 } else { 0 }); // reserved, optionFlags
     out.u16(n as u16).u16(index_format);
     out.u32(n_contour.len() as u32);
     out.u32(n_points.len() as u32);
@@ -323,6 +340,9 @@ pub fn transform_glyf(
     out.u32(instr.len() as u32);
     out.bytes(&n_contour.0).bytes(&n_points.0).bytes(&flags.0).bytes(&glyph_stream.0).bytes(&composite.0);
     out.bytes(&bitmap).bytes(&bbox.0).bytes(&instr.0);
+    if let Some(bm) = &overlap_bitmap {
+        out.bytes(bm);
+    }
     out.into_vec()
 }
 
